@@ -30,3 +30,20 @@ CFG["rule"] += (" Option values at and beyond the documented boundaries (the mod
                 "timing: a Get by the goroutine whose Set of that key has returned hits with that value (nobody deletes or resets, no TTL passes); the same for all keys after the join; "
                 "a getter's hit is a value Set in the race or the unexpired old one; the only accepted loss is the documented cleanup/refresh race (concurrent Cleanup and an expired old entry); "
                 "afterwards 1 ns before / at the new expiry. Non-trivial: at least one key with an expired old entry was Set under reading.")
+CFG["rule"] += (" THE CLOCK MOVES WHILE A CALL IS IN PROGRESS (a call that is descheduled, or waits for the writers' lock, for longer than a TTL; virtual time in a bubble cannot do "
+                "that - it stands still while any goroutine runs or waits for a mutex - so these two tests run the cache on a scripted clock put into CacheOptions' own unexported test "
+                "option 'clock' by reflection; if a build has no such option they record moving-clock.seam-unavailable-nothing-checked and check nothing). "
+                "TestClockMovesDuringCalls: MaxTTL {0, -1, 1, 2, 5, 10^6} x histories of up to 16 operations over 4 keys {Set(ttl 1|2|3|5|100|10^6), Get, Delete, Cleanup, Reset, a periodic pass "
+                "(the cleaner's ticker fired by the case), advance to 1 ns before / at / 1 ns after the lower or upper bound of a key's expiry or by a duration}, where the clock moves "
+                "right after EVERY read made during the operation by {0, 1 ns, TTL-1 ns, TTL, TTL+1 ns, 1 ns..200 s}: two reads inside one call differ by that amount. Oracle by call spans: "
+                "a hit returns the value of the most recent Set that has returned (never a superseded or deleted one, whatever the clock did); must hit while less than the TTL has passed "
+                "between the Set being called and the Get returning; must miss once the TTL has passed between the Set returning and the Get being called; in between both (the band is "
+                "empty when the clock stands still during the calls: then it is the exact model); full sweep of all keys after every step. Non-trivial: the clock moved by at least the "
+                "(capped) TTL inside a Set of a key that held a live older value, with hits and misses in the history (classes moving-clock.*). "
+                "TestClockMovesDuringLockWait (real threads): every read of the clock by anybody moves it by 1 ms..3 s; 1..3 setters run rounds Set(k, old, TTL of years); Set(k, new, TTL 1..3 s); "
+                "Get(k) on keys of their own while a cleaner deletes 500..30000 expired entries under the writers' lock and puts them back, 0..2 writers set and delete other keys and 0..2 readers "
+                "read the setters' keys, GOMAXPROCS default|2|4, until the cleaner has finished 1..3 passes. One-sided oracle without timing: a hit after the Set of new returned is new, never "
+                "old; no hit once the TTL has passed since that Set returned; a reader never sees a key's values go backwards; after the join a key holds its last value or nothing; a miss is "
+                "always accepted (documented cleanup/refresh race). Non-trivial: a Set during which the clock moved by at least its TTL, and hits (classes moving-clock.lock-wait.*, "
+                "incl. the count of Sets during which only the OTHER goroutines' reads carried the clock past the TTL, i.e. while it waited).")
+CFG["assumptions"] = CFG["assumptions"] + ["the moving-clock tests reach the cache's clock through CacheOptions' unexported test field 'clock' (reflection; same seam as the repository's in-package tests)"]
